@@ -68,7 +68,7 @@ package sonic
 //@   ensures [depth] f.ioc.Dispatched == old(f.ioc.Dispatched)
 
 //@ func (*file).asyncReadNow
-//@   prop C01, C02, C14
+//@   prop C01, C02, C14, C19
 //@   requires fInv(f) && cb != nil && !armedR(f) && 0 <= readSoFar && readSoFar <= len(b)
 //@   requires f.readReactor.b == b && f.readReactor.readAll == readAll
 //@   // chunk k lands right after chunk k-1: the transport is handed exactly b[readSoFar:]
@@ -133,7 +133,7 @@ package sonic
 //@   ensures [depth] f.ioc.Dispatched == old(f.ioc.Dispatched)
 
 //@ func (*file).asyncWriteNow
-//@   prop C01, C02, C14
+//@   prop C01, C02, C14, C19
 //@   requires fInv(f) && cb != nil && !armedW(f) && 0 <= wroteSoFar && wroteSoFar <= len(b)
 //@   requires f.writeReactor.b == b && f.writeReactor.writeAll == writeAll
 //@   // chunk k lands right after chunk k-1: the transport is handed exactly b[wroteSoFar:]
